@@ -25,7 +25,7 @@ STEPS = ('open-polling', 'open-websocket', 'poll', 'post-message', 'post-close',
          'advance-interval', 'advance-past-bound', 'bad-method', 'bad-transport', 'unknown-sid', 'bad-version', 'poll-second-session',
          'post-binary', 'post-two-then-close', 'jsonp-poll', 'ws-pong', 'post-nonascii-over-bytes', 'post-ascii-at-limit',
          'post-ascii-over-limit', 'ws-frame-over-limit', 'ws-nonascii-frame', 'post-close-then-message', 'post-form-encoded',
-         'send-burst-over-limit')
+         'send-burst-over-limit', 'upgrade-slow-probe-send')
 
 
 class _Side:
@@ -131,6 +131,28 @@ def _apply(side, step, n):
             sut.app_send(s0, data)
     elif step == 'disconnect-sid':
         req(step, sut.app_disconnect(s0))
+    elif step == 'upgrade-slow-probe-send':
+        # slow network during the handshake: the server's answer to the probe stays in flight (back-pressure) while the
+        # application sends a message; then the link drains and the client completes the upgrade
+        from vf.props.common import WsPeer as _WsPeer
+        wp = _WsPeer()
+        u = req(step, sut.ws_upgrade(s0, peer=wp))
+        sut.settle()
+        wp.paused = True
+        wp.send('2probe')
+        sut.settle()
+        sut.app_send(s0, 'bp%d' % n)
+        sut.settle()
+        side.collect()
+        wp.paused = False
+        sut.settle()
+        wp.send('5')
+        sut.settle()
+        if wp.accepted and '3probe' in wp.frames:
+            side.peers[0] = wp
+        elif not wp.client_closed:
+            side.peers.setdefault(('failed', n), wp)
+            wp.close()
     elif step.startswith('upgrade-'):
         u = req(step, sut.ws_upgrade(s0))
         sut.settle()
